@@ -8,6 +8,8 @@
 //   f g -> float64            p q -> bool   names starting with "lbl" -> labels
 package progfam
 
+import "strings"
+
 // Base is one base function of the family.
 type Base struct {
 	Name     string // function name inside Src (always "F")
@@ -547,6 +549,9 @@ lblOuter:
 	}
 }
 `}}},
+		mk("padliteral", "	z := \"" + strings.Repeat("A", 127) + "B\"\n	if a > len(z) {\n		return len(z), z\n	}\n	return a, x + z[:1]"),
+		mk("longunicode", "	z := \"" + strings.Repeat("a", 127) + "\u00e9\u00e9 tail of a long literal\"\n	u := \"second-literal\"\n	if b > 0 {\n		return len(z), u\n	}\n	return len(u), z[:3] + y"),
+		mk("hugeliteral", "	z := \"" + strings.Repeat("xy", 2600) + "\"\n	return len(z) + a, z[:2] + x"),
 		mk("callargs", `	c := sub2(a, b)
 	d := sub2(b, len(s))
 	return c*10 + d, x`),
